@@ -36,6 +36,8 @@ FRESH_FUNCS = {
     "builtins.all", "math.sqrt", "math.log", "random.sample", "random.random", "itertools.accumulate", "collections.defaultdict",
     "os.environ.get", "logging.getLogger", "copy.deepcopy", "sklearn.mixture.GaussianMixture", "multiprocessing.Pool",
 }
+NUMERIC_ARRAY_CTORS = {"numpy.zeros", "numpy.ones", "numpy.empty", "numpy.full", "numpy.zeros_like", "numpy.ones_like", "numpy.empty_like",
+                       "numpy.full_like", "numpy.eye", "numpy.identity", "numpy.arange", "numpy.linspace"}
 # container copies: fresh container, shared elements
 SHALLOW_COPY_FUNCS = {"builtins.list", "copy.copy", "builtins.reversed", "builtins.enumerate", "builtins.zip", "itertools.chain",
                       "itertools.chain.from_iterable", "builtins.iter"}
@@ -119,6 +121,7 @@ class OwnershipAnalysis:
         self.max_rounds = max_rounds
         self.stats = {"activations": 0, "objects": set(), "rounds": 0}
         self.unknown_calls: Set[str] = set()
+        self.numeric_arrays: Set[Obj] = set()
         self.stored_into_memo: List[Tuple[FuncInfo, ast.AST, Set[Obj]]] = []
         self.act_stack: List["_Activation"] = []
         # object -> activations (by uid) in which the object is known to be a single concrete object
@@ -300,7 +303,8 @@ class _Activation:
                 base = self.eval(t.value)
                 self.oa.record(self.fi, st, base, "subscript", self.ctx)
                 for o in base:
-                    self.oa.heap.add(o, ELEM, vals)
+                    if o not in self.oa.numeric_arrays:
+                        self.oa.heap.add(o, ELEM, vals)
             elif isinstance(t, ast.Attribute):
                 base = self.eval(t.value)
                 self.oa.record(self.fi, st, base, "attribute:" + t.attr, self.ctx, t.attr)
@@ -433,7 +437,8 @@ class _Activation:
             self.eval(target.slice)
             self.oa.record(self.fi, st, base, "subscript", self.ctx)
             for o in base:
-                self.oa.heap.add(o, ELEM, vals)
+                if o not in self.oa.numeric_arrays:
+                    self.oa.heap.add(o, ELEM, vals)
 
     def newctx(self, node) -> Tuple:
         c = self.ctx + (id(node),)
@@ -755,7 +760,11 @@ class _Activation:
                                                                                  "builtins.", "numba.", "sys.", "copy.")):
             if fq.startswith("builtins.") and fq not in FRESH_FUNCS:
                 self.oa.unknown_calls.add(fq)
-            return {self.oa.alloc(e, self.ctx, fq.split(".")[-1])}
+            o_new = self.oa.alloc(e, self.ctx, fq.split(".")[-1])
+            if fq in NUMERIC_ARRAY_CTORS and not any(k.arg == "dtype" and "object" in ast.unparse(k.value) for k in getattr(e, "keywords", [])):
+                # a numeric ndarray holds values, not references: storing into it copies, indexing it yields (a view of) itself
+                self.oa.numeric_arrays.add(o_new)
+            return {o_new}
         self.oa.unknown_calls.add(fq)
         return {self.oa.alloc(e, self.ctx, "unknown")}
 
